@@ -81,6 +81,16 @@ def rawDft1 (e : R → V) (N : Nat) (x : Nat → V) (k : Nat) : V :=
 def fftRoute1 (e : R → V) (N : Nat) (x : Nat → V) (l : Nat) : V :=
   rawDft1 e N (fun i => x ((i + N / 2) % N)) ((l + (N - N / 2)) % N)
 
+/-- the kernel a transform named as in `scipy.fft` uses: `ifft2` the reflected one, anything else the forward one -/
+def kernelOf (name : String) (e : R → V) : R → V := if name = "ifft2" then (fun t => e (-t)) else e
+
+/-- source index of NumPy's index rotations: `ifftshift(x)[t] = x[(t + N//2) % N]`, `fftshift(x)[t] = x[(t + N - N//2) % N]` -/
+def rotIdx (name : String) (N t : Nat) : Nat := if name = "ifftshift" then (t + N / 2) % N else (t + (N - N / 2)) % N
+
+/-- `outer(transform(inner(x)))` on one axis with the three names as they appear in the source of `focus` / `unfocus` -/
+def fftRouteNamed (transform outer inner : String) (e : R → V) (N : Nat) (x : Nat → V) (l : Nat) : V :=
+  rawDft1 (kernelOf transform e) N (fun i => x (rotIdx inner N i)) (rotIdx outer N l)
+
 /-- the centred DFT the FFT route is meant to be: `mdft1` with `n = N`, `α = 1/N`, no shift -/
 def cdft1 (e : R → V) (N : Nat) (x : Nat → V) (l : Nat) : V :=
   Num.sumTo N fun i => x i * e (coord N i * coord N l / Num.ofInt (N : Int))
